@@ -347,7 +347,7 @@ package sod
 
 //@ func (*objIndex).insertOrUpdate
 //@ serves C01 C02 C03 C06 C07 C19 C20
-//@ requires [wf] wfIndex(in) && o != nil && dyntype(o) == in.otype
+//@ requires [wf] wfIndex(in) && o != nil && dyntype(o) == in.otype && o.uuid != ""
 //@ assume [id-room] in.i < 18446744073709551615
 //@ let u string := o.uuid
 //@ let known bool := has(in.uuids, o.uuid)
@@ -729,7 +729,7 @@ package sod
 //@ func (*Schema).index
 //@ serves C01 C02 C03 C06 C07 C19 C20
 //@ requires [schema] s != nil && s.ObjectIndex != nil
-//@ requires [wf] wfIndex(s.ObjectIndex) && o != nil && dyntype(o) == s.ObjectIndex.otype
+//@ requires [wf] wfIndex(s.ObjectIndex) && o != nil && dyntype(o) == s.ObjectIndex.otype && o.uuid != ""
 //@ assume [id-room] s.ObjectIndex.i < 18446744073709551615
 //@ let u string := o.uuid
 //@ let known bool := has(s.ObjectIndex.uuids, o.uuid)
@@ -862,6 +862,9 @@ package sod
 //@ ensures [C06 iou.reject-no-trace] imp(err != nil && !isStorage(err), FSk == old(FSk) && FSc == old(FSc) && idx.ver == old(idx.ver) && forallk(w, string, has(idx.uuids, w) == old(has(idx.uuids, w)) && cached(db, s, w) == old(cached(db, s, w)) && pend(db, s, w) == old(pend(db, s, w)) && imp(cached(db, s, w), db.cache.m[ckey(s)].m[w].content == old(db.cache.m[ckey(s)].m[w].content))))
 //@ ensures [C06 iou.reject-index] imp(err != nil && !isStorage(err), preserved(objIndex.i, MapDom[string,uint64], MapVal[string,uint64], MapDom[uint64,string], MapVal[uint64,string], fieldIndex.Index, fieldIndex.pos, MapDom[uint64,*indexedField], MapVal[uint64,*indexedField], Elem[*indexedField], indexedField.Value, indexedField.ObjectId))
 //@ ensures [C05 C06 iou.storage-detectable] imp(isStorage(err), (FSk == old(FSk) && FSc == old(FSc) && idx.ver == old(idx.ver)) || !collK1(db, s) || !collK2(db, s))
+//@ callhint (*DB).commit [C01 others-value] forallk(w, string, imp(w != o.uuid, value(db, s, w) == old(value(db, s, w)) && has(idx.uuids, w) == old(has(idx.uuids, w))))
+//@ callhint (*DB).commit [C01 others-entry] forallk(w, string, imp(w != o.uuid && has(idx.uuids, w), idx.uuids[w] == old(idx.uuids[w]) && forallk(f, string, imp(has(idx.Fields, f), idx.Fields[f].objectIds[idx.uuids[w]].Value == old(idx.Fields[f].objectIds[idx.uuids[w]].Value)))))
+//@ callhint (*DB).commit [C01 own-entry] has(idx.uuids, o.uuid) && value(db, s, o.uuid) == o.content && forallk(f, string, imp(has(idx.Fields, f), idx.Fields[f].objectIds[idx.uuids[o.uuid]].Value == norm(proj(o.content, f))))
 //@ callhint (*DB).commit [C01 coherent-before-commit] collsOK(db)
 //@ ensures [C01 iou.wf-base] wfDBbase(db)
 //@ ensures [C01 iou.wf] imp(!isStorage(err), collsOK(db))
